@@ -90,7 +90,7 @@ void c01_case(Ctx &c) {
   // PDO channels with arbitrary stored parameters
   static const uint32_t MV[16] = {0x21000108, 0x21000408, 0x21000510, 0x21000720, 0x21000818, 0x00050008, 0x00020008, 0x00070020, 0x00060010, 0x00030010, 0x21000100, 0x21000340, 0x30000108, 0x20010008, 0x21000A20, 0x21000B20};
   uint32_t tpid[4] = {0, 0, 0, 0}, rpid[4] = {0, 0, 0, 0};
-  for (int p = 0; p < CO_TPDO_N; p++) if (HAS(17 + p) || c.t.chance(60)) {
+  for (int p = 0; p < CO_TPDO_N && p < 4; p++) if (HAS(17 + p) || c.t.chance(60)) {   // (build n2 has room for 6 TPDOs / 5 RPDOs: the pre-defined connection set names four of each)
     bool wild = c.t.chance(90); std::vector<uint32_t> maps; int n = wild ? (int)c.t.below(10) : 1 + (int)c.t.below(3); int slots = wild ? (int)c.t.below(9) : 8;
     for (int i = 0; i < n && i < 8; i++) maps.push_back(wild ? MV[c.t.below(16)] : MV[c.t.below(5)]);
     tpid[p] = 0x180u + 0x100u * p + (nid & 0x7F);
@@ -99,7 +99,7 @@ void c01_case(Ctx &c) {
     if (wild) *t.num = (uint8_t)n;
     M((uint16_t)(0x1800 + p), 1); M((uint16_t)(0x1800 + p), 2); M((uint16_t)(0x1800 + p), 3); M((uint16_t)(0x1800 + p), 5); M((uint16_t)(0x1A00 + p), 0); M((uint16_t)(0x1A00 + p), 1);
   }
-  for (int p = 0; p < CO_RPDO_N; p++) if (HAS(21 + p) || c.t.chance(60)) {
+  for (int p = 0; p < CO_RPDO_N && p < 4; p++) if (HAS(21 + p) || c.t.chance(60)) {
     bool wild = c.t.chance(90); std::vector<uint32_t> maps; int n = wild ? (int)c.t.below(10) : 1 + (int)c.t.below(3); int slots = wild ? (int)c.t.below(9) : 8;
     for (int i = 0; i < n && i < 8; i++) maps.push_back(wild ? MV[c.t.below(16)] : MV[c.t.below(10)]);
     rpid[p] = c.t.chance(30) ? 0x200u + (nid & 0x7F) : 0x200u + 0x100u * p + (nid & 0x7F);
